@@ -325,6 +325,12 @@ impl<'p> CoroutinePool<'p> {
             assert!(self.waits.insert(task_id, arc.clone()).is_none());
             arc
         };
+        // the task may have completed before the waiter was registered,
+        // in which case nobody will ever wake the waiter up
+        if let Some(r) = self.try_take_task_result(task_id) {
+            self.notify(task_id);
+            return Ok(r);
+        }
         let (lock, cvar) = &*arc;
         drop(
             cvar.wait_timeout_while(
